@@ -121,19 +121,30 @@ class Lemmas:
         self.status = {}
         self.users = {}
 
-    def need(self, name):
-        if name not in self.status:
-            self.status[name] = None  # cycle guard
-            if ":" in name:
-                base, arg = name.split(":", 1)
-                ok = getattr(self, "lemma_" + base)(arg)
-            else:
-                ok = getattr(self, "lemma_" + name)()
-            self.status[name] = ok
-        return self.status[name]
+    def need(self, name, only=None):
+        """`only`: keep just the obligations of the lemma whose id contains one of these substrings
+        (for a property that rests on one half of a lemma, e.g. the parser half of ROWWIDTH)."""
+        skey = name if only is None else "%s|%s" % (name, ",".join(only))
+        if skey not in self.status:
+            self.status[skey] = None  # cycle guard
+            prev = getattr(self, "_only", None)
+            self._only = only
+            try:
+                if ":" in name:
+                    base, arg = name.split(":", 1)
+                    ok = getattr(self, "lemma_" + base)(arg)
+                else:
+                    ok = getattr(self, "lemma_" + name)()
+            finally:
+                self._only = prev
+            self.status[skey] = ok
+        return self.status[skey]
 
     def _ob(self, lemma, oid, cond, okd, faild, site=""):
         key = "lemma:%s:%s" % (lemma, oid)
+        only = getattr(self, "_only", None)
+        if only is not None and not any(o in oid for o in only):
+            return True
         return self.chk.require(bool(cond), "LEMMA", key, okd, faild, site)
 
     # -- SIGIDX: every stored signal index is < signals.len() ----------------
@@ -1573,6 +1584,15 @@ def r_driver(P, L, s, d):
     return None
 
 
+def r_min_index(P, L, s, d):
+    """a[x.min(K)] on a fixed-size array of length N > K."""
+    if d["kind"] == "assert" and d["construct"] == "BoundsCheck" and re.fullmatch(r"\d+", d.get("len", "")):
+        m = re.fullmatch(r"(?:Ord::min|cmp::min|usize::min)\((.*), (\d+)\)", d.get("index", ""))
+        if m and int(m.group(2)) < int(d["len"]):
+            return (True, "index is min(_, %s) and the array has %s elements" % (m.group(2), d["len"]))
+    return None
+
+
 def r_nonzero_divisor(P, L, s, d):
     """x.wrapping_div(y) / wrapping_rem / ..: panics only for y == 0; discharged by a dominating y != 0 on the same term."""
     if d["kind"] == "call" and d["construct"] == "integer division" and len(d.get("args", [])) == 2:
@@ -1585,7 +1605,7 @@ def r_nonzero_divisor(P, L, s, d):
     return None
 
 
-RULES = [r_nonzero_divisor, r_driver, r_sigidx, r_rowwidth, r_outidx, r_fold, r_default_unwrap, r_generator_unreachable, r_stk, r_guard_lt, r_position_same,
+RULES = [r_nonzero_divisor, r_min_index, r_driver, r_sigidx, r_rowwidth, r_outidx, r_fold, r_default_unwrap, r_generator_unreachable, r_stk, r_guard_lt, r_position_same,
          r_position_unwrap, r_func, r_bits_shift, r_step, r_capacity, r_drain_full, r_sort, r_radix, r_uninhabited,
          r_try_static, r_framedmap, r_refcell, r_gen_range, r_getrandom, r_binoptree_dummy, r_text_span, r_lex_prefix,
          r_header_lex, r_text_pos, r_loop_counter, r_kind_conversion, r_token_api]
